@@ -68,6 +68,37 @@ CLAUSES.update({
 })
 
 
+CLAUSES.update({c: ["C18"] for c in (
+    "WrongRequest", "WrongPort", "WrongDestination", "TooManyRequests", "RequestOffSchedule", "RequestAfterAnswer",
+    "SendAfterClose", "DiscoverRaised", "DuplicateEntry", "SpuriousEntry", "MissingEntry", "SocketLeftOpen", "NoRequest",
+    "DiscoverHangs", "GaveUpEarly")})
+
+
+def lower_discovery(trace):
+    out = []
+    for ev in trace:
+        e, t = ev["e"], ev["t"]
+        if e == "call" and ev.get("method") == "discover":
+            host = ev.get("kwargs", {}).get("remote_host")
+            out.append({"e": "calldiscover", "t": t, "host": list(host.encode()) if host else []})
+        elif e == "ret":
+            out.append({"e": "retdiscover", "t": t, "res": ev["res"], "val": ev["val"] if isinstance(ev["val"], list) else []})
+        elif e == "udp_open":
+            out.append({"e": "udp_open", "t": t, "u": ev["u"], "lport": ev["lport"]})
+        elif e == "udp_send":
+            out.append({"e": "udp_send", "t": t, "u": ev["u"], "host": list(ev["host"].encode()), "port": ev["port"], "b": ev["b"]})
+        elif e == "udp_send_closed":
+            out.append({"e": "udp_send", "t": t, "u": ev["u"], "host": [], "port": 0, "b": ev["b"]})
+        elif e == "datagram":
+            out.append({"e": "datagram", "t": t, "u": ev["u"], "b": ev["b"]})
+        elif e == "udp_close":
+            out.append({"e": "udp_close", "t": t, "u": ev["u"]})
+        elif e == "unhandled":
+            out.append({"e": "unhandled", "t": t})
+    out.append({"e": "end", "t": trace[-1]["t"] if trace else 0})
+    return out
+
+
 def props_of(clause):
     return CLAUSES.get(clause.split(":")[0], [])
 
